@@ -337,10 +337,12 @@ func (r *rawNamer) Name(t *types.Type) string {
 	if t.Name.Package != "" {
 		var name string
 		if r.tracker != nil {
-			r.tracker.AddType(t)
 			if t.Name.Package == r.pkg {
+				// A type of the package the names are used in needs no import,
+				// even if the tracker was not told about that package.
 				name = t.Name.Name
 			} else {
+				r.tracker.AddType(t)
 				name = r.tracker.LocalNameOf(t.Name.Package) + "." + t.Name.Name
 			}
 		} else {
